@@ -59,6 +59,9 @@ def items(tier):
         ["x = b(i)", "a(i) = x", "x = a(i) * 2.0", "c(i,2) = x"],
         ["if (b(i) > 0.0) then", "  y = b(i)", "  x = y", "end if", "a(i) = x"],
         ["k = idx(i)", "a(i) = b(k)"], ["t = b(i)", "a(i) = t"], ["a(i) = real(kout)"],
+        # array sections in a dimension without the loop variable
+        ["c(1:3,i) = c(2:4,i-1) + 1.0"], ["c(1:3,i) = c(1:3,i) * 2.0"], ["c(0:2,i) = c(3:5,i) + b(i)"],
+        ["c(i,1:3) = c(i-1,2:4)"], ["c(1:2,i) = a(i)", "c(3:4,i) = c(1:2,i)"],
     ]
     pres = [["x = 0.5", "y = 0.25", "k = 1"]]
     for k, b in enumerate(bodies):
